@@ -11,8 +11,11 @@ vector that holds an expression followed by "something that stops it". Here the 
 `Parser::parse` (`Parse.parseTokens` with the tables of the running code and the fuel the model is executed with) reads the
 token vector in which `e₁`, `e₂` are written with minimal parentheses and the one in which they are fully parenthesised as
 the same tree — the SELECT statement whose projection is the tree the reference grammar assigns to `e₁` and whose filter is
-that of `e₂` — whatever the locations of the tokens; hence both texts lower to the same statement (`parseToks`) and give the
-same output.
+that of `e₂` — whatever the locations of the tokens (`select_where_minimal_parens`); hence both token vectors lower alike
+(`select_where_same_statement`), two TEXTS whose tokens spell the two forms parse alike (`select_where_same_text`) and the whole
+program prints the same (`select_where_same_output`). Scope, said plainly: ONE statement shape — one projection without alias,
+FROM, WHERE; expressions in the other positions (further projections, GROUP BY keys, HAVING, LIMIT) are covered by the
+expression-level theorems of `Props/C13.lean` plus the clause-level determinism of `Props/C20Parse.lean`, not composed here.
 -/
 namespace Sqlgrep.Props.C13Stmt
 open Sqlgrep Sqlgrep.Parse Sqlgrep.Spec
@@ -237,6 +240,38 @@ theorem select_where_same_statement (rv : List Char → Bool) (e₁ e₂ : RExpr
   exact ⟨Pipeline.parseToks_of_sameTree rv p₁ p₂ he,
     fun s => ⟨Pipeline.parseToks_stmt_of_sameTree rv p₁ p₂ he s, Pipeline.parseToks_stmt_of_sameTree rv p₂ p₁ he.symm s⟩⟩
 
+/-- **… for texts**: two query texts whose tokens (as the tokenizer of the running code reads them: any layout, letter case of
+keywords, comments) spell `SELECT e₁ FROM tbl WHERE e₂` with minimal and with full parentheses are answered alike by
+`parsing::parse`: the same statement, or errors of the same kind -/
+theorem select_where_same_text (lo : Lex.Oracles) (rv : List Char → Bool) (e₁ e₂ : RExpr) (hwf₁ : RExpr.WF specTables e₁)
+    (hwf₂ : RExpr.WF specTables e₂) (tbl : List Char) (hd₁ : NotDistinctFirst (RExpr.minimal e₁))
+    (hd₂ : NotDistinctFirst (RExpr.full e₁)) (text₁ text₂ : List Char) (toks₁ toks₂ : List PTok)
+    (ht₁ : Lex.tokenize lo text₁ = .ok toks₁) (ht₂ : Lex.tokenize lo text₂ = .ok toks₂)
+    (h₁ : toks₁.map (·.tok) = selectWhere (RExpr.minimal e₁) tbl (RExpr.minimal e₂))
+    (h₂ : toks₂.map (·.tok) = selectWhere (RExpr.full e₁) tbl (RExpr.full e₂)) (s : LStmt) :
+    Pipeline.parseText lo rv text₁ = .stmt s ↔ Pipeline.parseText lo rv text₂ = .stmt s := by
+  unfold Pipeline.parseText
+  rw [ht₁, ht₂]
+  exact (select_where_same_statement rv e₁ e₂ hwf₁ hwf₂ tbl hd₁ hd₂ toks₁ toks₂ h₁ h₂).2 s
+
+/-- **… and for the output of the whole program** (`Pipeline.runText`: definitions text, query text, format, files ↦ printed
+records or error): the statement written with minimal parentheses and the fully parenthesised one give the same answer on
+every input, in every format, whatever the outside world answers (`Facts`) -/
+theorem select_where_same_output (F : Pipeline.Facts) (defs text₁ text₂ : List Char) (fmt : Print.Format) (single : Bool)
+    (files : List (List Nat)) (e₁ e₂ : RExpr) (hwf₁ : RExpr.WF specTables e₁) (hwf₂ : RExpr.WF specTables e₂) (tbl : List Char)
+    (hd₁ : NotDistinctFirst (RExpr.minimal e₁)) (hd₂ : NotDistinctFirst (RExpr.full e₁)) (toks₁ toks₂ : List PTok)
+    (ht₁ : Lex.tokenize (Pipeline.lexOracles F) text₁ = .ok toks₁) (ht₂ : Lex.tokenize (Pipeline.lexOracles F) text₂ = .ok toks₂)
+    (h₁ : toks₁.map (·.tok) = selectWhere (RExpr.minimal e₁) tbl (RExpr.minimal e₂))
+    (h₂ : toks₂.map (·.tok) = selectWhere (RExpr.full e₁) tbl (RExpr.full e₂))
+    (d q : LStmt)
+    (hc₁ : Pipeline.classesCover F defs = true ∧ Pipeline.classesCover F text₁ = true) (hc₂ : Pipeline.classesCover F text₂ = true)
+    (hd : Pipeline.parseText (Pipeline.lexOracles F) (Pipeline.regexValidFn F) defs = .stmt d)
+    (hp : (Pipeline.createPatterns d).all (fun re => ((Utf8.decode re).bind (Pipeline.regexValidOf F)).isSome) = true)
+    (hq : Pipeline.parseText (Pipeline.lexOracles F) (Pipeline.regexValidFn F) text₁ = .stmt q) :
+    Pipeline.runText F defs text₁ fmt single files = Pipeline.runText F defs text₂ fmt single files :=
+  Props.Pipeline.runText_depends_on_statements F defs defs text₁ text₂ fmt single files d q hc₁ ⟨hc₁.1, hc₂⟩ hd hd hp hq
+    ((select_where_same_text _ _ e₁ e₂ hwf₁ hwf₂ tbl hd₁ hd₂ text₁ text₂ toks₁ toks₂ ht₁ ht₂ h₁ h₂ q).1 hq)
+
 /-! ### non-vacuity: `SELECT a OR b AND c FROM t WHERE NOT x = y` -/
 
 /-- `a OR b AND c` -/
@@ -264,6 +299,14 @@ example : (match parseTokens PrecTables.code ((selectWhere (RExpr.minimal exProj
         | [(none, .boolop _ false (.column _ _) (.boolop _ true _ _))], some (.invert _ (.binop _ _ _ _)) => true
         | _, _ => false)
     | _ => false) = true := by decide +kernel
+
+/-- the hypotheses of the text-level theorems on real texts (other layout, letter case and a comment in the second): the tokenizer
+reads them as the two spellings -/
+example : (match Lex.tokenize Lex.Tables.asciiOnly "SELECT a OR b AND c FROM t WHERE NOT x = y".toList with
+    | .ok ts => decide (ts.map (·.tok) = selectWhere (RExpr.minimal exProj) ['t'] (RExpr.minimal exFilter)) | _ => false) = true ∧
+    (match Lex.tokenize Lex.Tables.asciiOnly "select (a or (b and c)) -- fully parenthesised\n  from t\n  where (not (x = y))".toList with
+    | .ok ts => decide (ts.map (·.tok) = selectWhere (RExpr.full exProj) ['t'] (RExpr.full exFilter)) | _ => false) = true := by
+  decide +kernel
 
 /-- through the whole program (`runText`: tokenizer, parser, lowering, extraction, engine, printer): a statement written with
 minimal parentheses and its fully parenthesised form print the same records — and not the records of the other grouping -/
